@@ -58,6 +58,10 @@ JoinFrom(es, k, start, offset, joiner) ==
 RewriteJoin(es, offset, joiner) ==
     IF es = <<>> THEN <<>>
     ELSE es[1].ins \o JoinFrom(es, 2, es[1].pos - offset + es[1].del, offset, joiner)
+\* an edit that a rewriter's expandStart / expandEnd widened beyond the captured text (len bytes from offset) is no edit of
+\* that text: it is left out before joining (fix d73ee94)
+RewriteJoinIn(es, offset, joiner, len) ==
+    RewriteJoin(SelectSeq(es, LAMBDA e : e.pos >= offset /\ e.pos - offset + e.del <= len), offset, joiner)
 \* P (C06, last clause) for the accepted edits of a rewrite: each lies inside the captured text, they are ordered and
 \* disjoint, and the result is the captured text with exactly those ranges substituted
 RECURSIVE AcceptedFrom(_, _, _, _)
